@@ -230,13 +230,16 @@ def run_schedule(r, sched, drain=True, max_live=3):
                 w.set_reset(reset_on)
                 record("reset:%d" % int(reset_on), m)
         if drain:
-            for _ in range(80):
+            tr.drained = False
+            for _ in range(200):
                 if not any(not tk.done() for tk in w.tasks.values()):
+                    tr.drained = True
                     break
                 m = w.mark()
                 tr.tokens.append("T")
                 if not w.tick():
                     tr.tokens.pop()
+                    tr.drained = True          # no timer left: whatever still runs waits for ever
                     break
                 record("tick", m)
         tr.final_listeners = w.n_listeners()
@@ -351,6 +354,14 @@ def monitor_c11(ctx, tr):
                                "written when the previous fragment is acknowledged or its wait expires", (rid, k),
                                "a continuation fragment was written by an event that neither acknowledged the previous fragment nor expired its wait")
             return
+    # every request gets its turn: after the drain (every timer has fired) nothing is still running - a request that is
+    # neither written nor ended would wait for ever
+    stuck = [i for i in getattr(tr, "final_live", []) or []]
+    if stuck and getattr(tr, "drained", False):
+        ctx.counterexample("request-never-sent-nor-ended", dict(inp, requests=stuck), "every request is written or ends by its timeout",
+                           dict(still_running=stuck, wrote=[i for i in stuck if any(w[1] == i for w in tr.writes)]),
+                           "a request is still running after every timer has fired: it was never transmitted and never ended")
+        return
     # a response is only awaited (the request only returns) after its last fragment went out
     last_written = {rid: step for (step, rid, k, raw) in tr.writes if raw[5] & 0x80}
     for s, st in enumerate(tr.steps):
